@@ -25,17 +25,19 @@ func readProfileDirectory(deps *depend.UserEnteredDependencies, dirPath string) 
 	if !fs.IsDir(dirPath) {
 		return fmt.Errorf("profile directory %s does not exist", dirPath)
 	}
-	packagesPath := path.Join(dirPath, "packages")
-	if fs.IsFile(packagesPath) {
-		err := readProfileFile(deps, packagesPath)
+	// Profiles stack: the parents' entries come first so that a "-*atom" line of this
+	// profile can remove an atom inherited from them
+	parentFile := path.Join(dirPath, "parent")
+	if fs.IsFile(parentFile) {
+		err := readParentFile(deps, parentFile, dirPath)
 		if err != nil {
 			return err
 		}
 	}
 
-	parentFile := path.Join(dirPath, "parent")
-	if fs.IsFile(parentFile) {
-		err := readParentFile(deps, parentFile, dirPath)
+	packagesPath := path.Join(dirPath, "packages")
+	if fs.IsFile(packagesPath) {
+		err := readProfileFile(deps, packagesPath)
 		if err != nil {
 			return err
 		}
@@ -57,6 +59,8 @@ func readProfileFile(deps *depend.UserEnteredDependencies, filename string) erro
 			if err != nil {
 				return err
 			}
+		} else if len(line) > 3 && line[0] == '-' && line[1] == '*' {
+			deps.Remove(line[2:])
 		}
 	}
 	return cursor.Err()
